@@ -165,10 +165,10 @@ def zip_mutate(data: bytes, op: str, rng: random.Random) -> bytes:
     elif op == "xml_lengths":
         # every length / extent in the part ("2.5cm", "914400" EMU in cx/cy, "12pt") takes one extreme value: sizes and positions that
         # no arithmetic on them can represent (hundreds of digits), zero, negative
-        ext = rng.choice([b"9" * 400, b"9" * 400 + b".5", b"0", b"-1", b"1" + b"0" * 30])
+        ext = rng.choice([b"9" * 400, b"9" * 400 + b".5", b"0", b"-1", b"1" + b"0" * 30, b"", b".", b" "])      # (also: no number at all before the unit)
         for i in xml_idx:
             zi_, d_ = members[i]
-            new = re.sub(rb'(?<=")-?\d+(?:\.\d+)?(?=(?:cm|mm|in|pt|pc|px)")', ext, d_)
+            new = re.sub(rb'(?<=")-?(?:\d+(?:\.\d*)?|\.\d+)(?=(?:cm|mm|in|pt|pc|px)")', ext, d_)
             new = re.sub(rb'(?<= c[xy]=")\d+(?=")', ext, new)
             members[i] = (zi_, new)
     elif op == "xml_huge_count":
